@@ -284,7 +284,11 @@ func runWorldChecks(ctx *RunCtx, rep *Report, prop string, props []string, nShor
 			}
 		}
 		w := newWorld(prop, props, max, min, local, ctx.Seed, i, r)
-		runWorldHistory(w, r, withSweep)
+		if i%9 == 4 {
+			runWorldHoldDeadline(w, r, withSweep)
+		} else {
+			runWorldHistory(w, r, withSweep)
+		}
 		if i%4000 == 9 {
 			tr := w.trace
 			if len(tr) > 40 {
